@@ -1297,7 +1297,7 @@ func (i *BigInt) BitwiseAndNotSmallInt(other SmallInt) Value {
 }
 
 func (i *BigInt) BitwiseAndNotBigInt(other *BigInt) Value {
-	result := ToElkBigInt((&big.Int{}).And(i.ToGoBigInt(), other.ToGoBigInt()))
+	result := ToElkBigInt((&big.Int{}).AndNot(i.ToGoBigInt(), other.ToGoBigInt()))
 	if result.IsSmallInt() {
 		return result.ToSmallInt().ToValue()
 	}
